@@ -76,6 +76,7 @@ def validate(chk, progs, name="sem", batches=None, timeout=1500, invariants=("Se
         return 0, 0
     # at most ~1500 executions per TLC run (memory), at least one run per core when there is enough work
     batches = batches or max(min(NCPU, max(1, len(usable) // 3)), (len(usable) + 1499) // 1500)
+    batches = min(batches, len(usable))
     groups = [usable[i::batches] for i in range(batches)]
     d = rundir(chk.pid, name + "_in")
     cfg = ("SPECIFICATION TSpec\nINVARIANT %s \nCONSTRAINT Progress\nPOSTCONDITION Accepted\n"
